@@ -1,4 +1,4 @@
-(* requires: Tokenizer Parser PlotQL Command Printer *)
+(* requires: Tokenizer Parser PlotQL Command Printer JsonCommand *)
 (* C17 probes on the extracted model: parse_cmd / parse_fix / parse_disp / parse_kind /
    parse_json / parse_print.  Rendering and AST decoding only; no parsing logic here. *)
 open Conv
@@ -208,6 +208,153 @@ let with_fallback fx b =
        | None -> "DOMAIN")
   | r -> presult r
 
+(* ---- JSON text -> JsonCommand.json (RFC 8259; decoding only, no conversion logic) ---- *)
+exception Bad_json
+let huge_number = ref false
+let parse_json_text (s : string) : JsonCommand.json =
+  let n = Stdlib.String.length s in
+  let pos = ref 0 in
+  let peek () = if !pos < n then Some (Stdlib.String.get s !pos) else None in
+  let adv () = incr pos in
+  let rec ws () = match peek () with Some (' ' | '\t' | '\n' | '\r') -> adv (); ws () | _ -> () in
+  let expect c = if peek () = Some c then adv () else raise Bad_json in
+  let lit w v = if !pos + Stdlib.String.length w <= n && Stdlib.String.sub s !pos (Stdlib.String.length w) = w
+                then (pos := !pos + Stdlib.String.length w; v) else raise Bad_json in
+  let hex4 () =
+    if !pos + 4 > n then raise Bad_json;
+    let v = (try int_of_string ("0x" ^ Stdlib.String.sub s !pos 4) with _ -> raise Bad_json) in
+    Stdlib.String.iter (fun c -> match c with '0'..'9' | 'a'..'f' | 'A'..'F' -> () | _ -> raise Bad_json) (Stdlib.String.sub s !pos 4);
+    pos := !pos + 4; v in
+  let utf8 buf cp =
+    if cp < 0x80 then Buffer.add_char buf (Char.chr cp)
+    else if cp < 0x800 then (Buffer.add_char buf (Char.chr (0xC0 lor (cp lsr 6))); Buffer.add_char buf (Char.chr (0x80 lor (cp land 0x3F))))
+    else if cp < 0x10000 then (Buffer.add_char buf (Char.chr (0xE0 lor (cp lsr 12))); Buffer.add_char buf (Char.chr (0x80 lor ((cp lsr 6) land 0x3F))); Buffer.add_char buf (Char.chr (0x80 lor (cp land 0x3F))))
+    else (Buffer.add_char buf (Char.chr (0xF0 lor (cp lsr 18))); Buffer.add_char buf (Char.chr (0x80 lor ((cp lsr 12) land 0x3F))); Buffer.add_char buf (Char.chr (0x80 lor ((cp lsr 6) land 0x3F))); Buffer.add_char buf (Char.chr (0x80 lor (cp land 0x3F)))) in
+  let str () =
+    expect '"';
+    let buf = Buffer.create 16 in
+    let rec go () =
+      match peek () with
+      | None -> raise Bad_json
+      | Some '"' -> adv ()
+      | Some '\\' ->
+          adv ();
+          (match peek () with
+           | Some '"' -> Buffer.add_char buf '"'; adv () | Some '\\' -> Buffer.add_char buf '\\'; adv ()
+           | Some '/' -> Buffer.add_char buf '/'; adv () | Some 'b' -> Buffer.add_char buf '\b'; adv ()
+           | Some 'f' -> Buffer.add_char buf '\012'; adv () | Some 'n' -> Buffer.add_char buf '\n'; adv ()
+           | Some 'r' -> Buffer.add_char buf '\r'; adv () | Some 't' -> Buffer.add_char buf '\t'; adv ()
+           | Some 'u' ->
+               adv ();
+               let hi = hex4 () in
+               if hi >= 0xD800 && hi < 0xDC00 then begin
+                 if !pos + 2 <= n && Stdlib.String.sub s !pos 2 = "\\u" then begin
+                   pos := !pos + 2;
+                   let lo = hex4 () in
+                   if lo >= 0xDC00 && lo < 0xE000 then utf8 buf (0x10000 + ((hi - 0xD800) lsl 10) + (lo - 0xDC00)) else raise Bad_json
+                 end else raise Bad_json
+               end else if hi >= 0xDC00 && hi < 0xE000 then raise Bad_json
+               else utf8 buf hi
+           | _ -> raise Bad_json);
+          go ()
+      | Some c -> if Char.code c < 0x20 then raise Bad_json else (Buffer.add_char buf c; adv (); go ()) in
+    go ();
+    bytes_of_text (Buffer.contents buf) in
+  let digits () =
+    let st = !pos in
+    let rec go () = match peek () with Some '0'..'9' -> adv (); go () | _ -> () in
+    go (); if !pos = st then raise Bad_json; Stdlib.String.sub s st (!pos - st) in
+  let number () =
+    let neg = (peek () = Some '-') in
+    if neg then adv ();
+    let ip = digits () in
+    if Stdlib.String.length ip > 1 && Stdlib.String.get ip 0 = '0' then raise Bad_json;
+    let fp = if peek () = Some '.' then (adv (); Some (digits ())) else None in
+    let ex = (match peek () with
+              | Some ('e' | 'E') -> adv (); (match peek () with Some ('+' | '-') -> adv () | _ -> ()); ignore (digits ()); true
+              | _ -> false) in
+    let zero t = Stdlib.String.for_all (fun c -> c = '0') t in
+    (* near or beyond the f64 range the deserialiser rejects the number even under an ignored key: the whole body is undecided here *)
+    if Stdlib.String.length ip > 300 then huge_number := true;
+    if ex || Stdlib.String.length ip > 300 then JsonCommand.JOdd
+    else match fp with
+      | None -> if neg && zero ip then JsonCommand.JOdd else JsonCommand.JInt (z_of_string ((if neg then "-" else "") ^ ip))
+      | Some f -> if neg && zero ip && zero f then JsonCommand.JOdd else JsonCommand.JDec (neg, bytes_of_text ip, bytes_of_text f) in
+  let rec value depth =
+    if depth > 4000 then raise Bad_json;
+    ws ();
+    match peek () with
+    | Some '{' ->
+        adv (); ws ();
+        if peek () = Some '}' then (adv (); JsonCommand.JObj [])
+        else begin
+          let rec members acc =
+            ws (); let k = str () in ws (); expect ':'; let v = value (depth + 1) in ws ();
+            match peek () with
+            | Some ',' -> adv (); members ((k, v) :: acc)
+            | Some '}' -> adv (); JsonCommand.JObj (Stdlib.List.rev ((k, v) :: acc))
+            | _ -> raise Bad_json in
+          members []
+        end
+    | Some '[' ->
+        adv (); ws ();
+        if peek () = Some ']' then (adv (); JsonCommand.JArr [])
+        else begin
+          let rec elems acc =
+            let v = value (depth + 1) in ws ();
+            match peek () with
+            | Some ',' -> adv (); elems (v :: acc)
+            | Some ']' -> adv (); JsonCommand.JArr (Stdlib.List.rev (v :: acc))
+            | _ -> raise Bad_json in
+          elems []
+        end
+    | Some '"' -> JsonCommand.JStr (str ())
+    | Some 't' -> lit "true" (JsonCommand.JBool true)
+    | Some 'f' -> lit "false" (JsonCommand.JBool false)
+    | Some 'n' -> lit "null" JsonCommand.JNull
+    | Some ('-' | '0'..'9') -> number ()
+    | _ -> raise Bad_json in
+  let v = value 0 in
+  ws (); if !pos <> n then raise Bad_json; v
+
+let rec json_text buf (j : JsonCommand.json) =
+  let str b =
+    Buffer.add_char buf '"';
+    Stdlib.List.iter (fun c -> let c = int_of_n c in
+      if c = 34 then Buffer.add_string buf "\\\"" else if c = 92 then Buffer.add_string buf "\\\\"
+      else if c < 32 then Buffer.add_string buf (Printf.sprintf "\\u%04x" c) else Buffer.add_char buf (Char.chr c)) b;
+    Buffer.add_char buf '"' in
+  match j with
+  | JsonCommand.JNull -> Buffer.add_string buf "null"
+  | JsonCommand.JBool b -> Buffer.add_string buf (if b then "true" else "false")
+  | JsonCommand.JInt z -> Buffer.add_string buf (string_of_z z)
+  | JsonCommand.JDec (neg, d, fd) -> Buffer.add_string buf ((if neg then "-" else "") ^ text d ^ "." ^ text fd)
+  | JsonCommand.JOdd -> Buffer.add_string buf "1e999999"       (* not representable here: makes the comparison fail loudly *)
+  | JsonCommand.JStr s -> str s
+  | JsonCommand.JArr l -> Buffer.add_char buf '['; Stdlib.List.iteri (fun i x -> if i > 0 then Buffer.add_char buf ','; json_text buf x) l; Buffer.add_char buf ']'
+  | JsonCommand.JObj l -> Buffer.add_char buf '{'; Stdlib.List.iteri (fun i (k, x) -> if i > 0 then Buffer.add_char buf ','; str k; Buffer.add_char buf ':'; json_text buf x) l; Buffer.add_char buf '}'
+
+let rec has_odd (j : JsonCommand.json) = match j with
+  | JsonCommand.JOdd -> true
+  | JsonCommand.JArr l -> Stdlib.List.exists has_odd l
+  | JsonCommand.JObj l -> Stdlib.List.exists (fun (_, x) -> has_odd x) l
+  | _ -> false
+
+let json_probe (h : string) : string =
+  huge_number := false;
+  match (try Some (parse_json_text (text (bytes_of_hex h))) with Bad_json | Stack_overflow -> None) with
+  | None -> "ERR"                                   (* not JSON *)
+  | Some _ when !huge_number -> "UNMODELLED json"
+  | Some j ->
+      (match JsonCommand.conv_command j with
+       | JsonCommand.JOk (JsonCommand.JC c) -> "OK " ^ command c
+       | JsonCommand.JOk (JsonCommand.JCStore (et, ctx, p)) ->
+           if has_odd p then "UNMODELLED json" else
+           let b = Buffer.create 64 in json_text b p;
+           Printf.sprintf "OK S %s %s %s" (hs et) (hs ctx) (hs (bytes_of_text (Buffer.contents b)))
+       | JsonCommand.JErr -> "ERR"
+       | JsonCommand.JUn -> "UNMODELLED json")
+
 let run (t : string list) : string =
   match t with
   | ["parse_cmd"; h] -> with_fallback Params.query_numeric_fallible (bytes_of_hex h)
@@ -227,7 +374,7 @@ let run (t : string list) : string =
        | Command.PDomain -> "DOMAIN"
        | Command.PUnmodelled _ -> "UNMODELLED")
   | ["parse_kind"; k] -> if Command.dispatch_handled (kind_of_string k) then "RESP" else "PANIC"
-  | ["parse_json"; _] -> "UNMODELLED json"
+  | ["parse_json"; h] -> json_probe h
   | "parse_print" :: mode :: "E" :: ast ->
       let (e, _) = dec_expr ast in
       hex_of_bytes (Printer.print_expr (Printer.speller (n_of_string mode)) e)
